@@ -167,8 +167,8 @@ func genHistory(rng *lib.Rng, cur int) (clients [][]planOp, delayUs int64) {
 	if rng.Chance(80) {
 		delayUs = int64(rng.Range(100, 2000))
 	}
-	// focused histories (minimal witnesses): pollers + ONE client that only changes the password
-	if f := rng.Intn(100); f < 24 {
+	// focused histories (minimal witnesses): pollers + ONE client that only changes the password or only fails to unlock
+	if f := rng.Intn(100); f < 32 {
 		delayUs = int64(rng.Range(300, 2000))
 		for ci := 0; ci < rng.Range(1, 3); ci++ {
 			clients = append(clients, []planOp{{Kind: "poll", Via: lib.Pick(rng, []string{"status", "flag", "api"}), Polls: rng.Range(60, 200)}})
@@ -177,7 +177,13 @@ func genHistory(rng *lib.Rng, cur int) (clients [][]planOp, delayUs int64) {
 		p := cur
 		for j := rng.Range(3, 6); j > 0; j-- {
 			o := planOp{Kind: "setpasswd", Via: lib.Pick(rng, []string{"direct", "api"}), Pause: rng.Intn(300)}
-			if f < 14 { // wrong old password (never-valid or a pool password that is not current)
+			if f >= 24 { // unlock attempts with a wrong password
+				o.Kind = "unlock"
+				o.P = poolSize + rng.Intn(len(passwords)-poolSize)
+				if rng.Bool() {
+					o.P = (cur + 1 + rng.Intn(poolSize-1)) % poolSize
+				}
+			} else if f < 14 { // wrong old password (never-valid or a pool password that is not current)
 				o.P = poolSize + rng.Intn(len(passwords)-poolSize)
 				if rng.Bool() {
 					o.P = (cur + 1 + rng.Intn(poolSize-1)) % poolSize
